@@ -950,6 +950,12 @@ func (c *Ctx) manyBlobCases() {
 	pool := c.userNamespaces(2)
 	for rep := 0; rep < c.n(2, 12); rep++ {
 		nb := c.rng.Range(128, 140)
+		if rep%2 == 1 {
+			// 43..127 blobs: the packed index field needs a two-byte length prefix only under the
+			// worst-case (three-byte) indexes of the estimate, not under the real ones
+			nb = c.rng.Pick([]int{43, 44, 50, 64, 85, 100, 126, 127})
+		}
+		lone := false // the many-blob transaction alone: its estimate is the estimate of the whole PFB region
 		mk := func(filler int) sqCase {
 			sc := sqCase{max: 16, thr: c.rng.Pick([]int{1, 2, 64})}
 			if c.rng.Bool() {
@@ -963,6 +969,10 @@ func (c *Ctx) manyBlobCases() {
 			raw := c.makeBlobTx(specs, filler)
 			btx, _, _ := tx.UnmarshalBlobTx(raw)
 			sc.txs = append(sc.txs, genTx{raw: raw, isBlob: true, inner: btx.Tx, blobs: specs})
+			if lone {
+				sc.desc = fmt.Sprintf("max=%d thr=%d t20 b[%d blobs, filler %d]", sc.max, sc.thr, nb, filler)
+				return sc
+			}
 			one := []blobSpec{c.randBlob(pool[1], 100, false)}
 			raw2 := c.makeBlobTx(one, 10)
 			btx2, _, _ := tx.UnmarshalBlobTx(raw2)
@@ -979,6 +989,28 @@ func (c *Ctx) manyBlobCases() {
 			if w, _ := safeWPFBs(b.sq); len(w) >= 1 {
 				E := uvarintLen(len(w[0])) + len(w[0]) // end of unit 0 in the pay-for-blob stream
 				for _, d := range []int{-1, 0, 1} {
+					delta := ((474+478*4+d-E)%478 + 478) % 478
+					fillers = append(fillers, f0+delta)
+				}
+			}
+		}
+		for _, f := range fillers {
+			c.squareCase(mk(f))
+			c.dist("many-blob-tx")
+		}
+		fillers = fillers[:0]
+		lone = true
+		// ... and the worst-case estimate of that wrapped PFB (every index 16384, what the builder reserves
+		// for) ending within a byte of a compact share boundary
+		{
+			inner := probe.txs[1].inner
+			worst := make([]uint32, nb)
+			for j := range worst {
+				worst[j] = 16384
+			}
+			if w, err := tx.MarshalIndexWrapper(inner, worst...); err == nil {
+				E := uvarintLen(len(w)) + len(w)
+				for _, d := range []int{-1, 0, 1, 2} {
 					delta := ((474+478*4+d-E)%478 + 478) % 478
 					fillers = append(fillers, f0+delta)
 				}
